@@ -28,6 +28,9 @@
          protocol error or does not yield the effective configuration of the
          last admissible load
       6  the implementation panicked
+      7  serialisation: with two overlapping Loads, the second made handler
+         calls / returned accepted while the first was parked inside a
+         handler, or the handler calls of the two loads interleave
     No open known-finding class (KF-C17-1, configuration stored by reference,
     was fixed by b7e5099: an in-place edit of a loaded message must now leave
     Current() alone, and failing that is an ordinary tag 3). *)
@@ -41,11 +44,17 @@ Definition ceff := eff string string.
 
 Inductive op :=
 | OLoad (arg : option cfg)
-| OMutate (c' : cfg).
+| OMutate (c' : cfg)
+| OPar (a b : option cfg).      (* two overlapping Loads, forced schedule (see par_run) *)
 
+(** [RPar early tr ea eb cur]: Load b returned while Load a was parked inside
+    its first handler call; every handler call in the global order in which
+    the calls were entered, tagged 0 (made by Load a) / 1 (Load b); the two
+    error results; Current() after both returned. *)
 Inductive obs :=
 | RLoad (err : bool) (calls : list ccall) (cur : option cfg)
 | RCur (cur : option cfg)
+| RPar (early : bool) (tr : list (nat * ccall)) (ea eb : bool) (cur : option cfg)
 | RPanic.
 
 (** construction: the base handed to NewConfigWithBase ([None] = NewConfig or
@@ -119,11 +128,23 @@ Definition entry_eqb : entry string string -> entry string string -> bool :=
 Definition ebind_eqb (a b : string * entry string string) : bool :=
   String.eqb (fst a) (fst b) && entry_eqb (snd a) (snd b).
 
+Definition calls_of (t : nat) (tr : list (nat * ccall)) : list ccall :=
+  map snd (filter (fun tc => Nat.eqb (fst tc) t) tr).
+
 Definition obs_eqb (a b : obs) : bool :=
   match a, b with
   | RLoad e cs cur, RLoad e' cs' cur' =>
       Bool.eqb e e' && mset_eqb call_eqb cs cs' && ocfg_eqb cur cur'
   | RCur cur, RCur cur' => ocfg_eqb cur cur'
+  | RPar e tr ea eb cur, RPar e' tr' ea' eb' cur' =>
+      (* same thread order call by call; the calls of each thread as a multiset *)
+      (* whether a refused second load came back before or after the first
+         one finished is not part of the contract (Validate may run inside or
+         outside the critical section) *)
+      (Bool.eqb e e' || (eb && eb')) && list_eqb Nat.eqb (map fst tr) (map fst tr')
+      && mset_eqb call_eqb (calls_of 0 tr) (calls_of 0 tr')
+      && mset_eqb call_eqb (calls_of 1 tr) (calls_of 1 tr')
+      && Bool.eqb ea ea' && Bool.eqb eb eb' && ocfg_eqb cur cur'
   | _, _ => false
   end.
 
@@ -144,6 +165,10 @@ Definition mstep (s : option cfg) (o : op) : option cfg * obs :=
              (m_current (fst (fst r))))
   | OMutate c' =>
       let s' := mutate s c' in (s', RCur (m_current s'))
+  | OPar a b =>
+      let r := @par_run string string string String.eqb String.eqb "" "" patched_C17_1 s a b in
+      let g := snd r in
+      (g_cfg g, RPar (fst r) (g_trace g) (pc_err g 0) (pc_err g 1) (m_current (g_cfg g)))
   end.
 
 (** ** the specification side
@@ -209,21 +234,47 @@ Definition shown (st : option cfg) : option cfg := m_current st.
 
 Definition tagif (b : bool) (t : N) : list N := if b then [] else [t].
 
+(** all calls tagged 0 come before all calls tagged 1 *)
+Fixpoint contiguous (tags : list nat) : bool :=
+  match tags with
+  | [] => true
+  | 0%nat :: tl => contiguous tl
+  | _ :: tl => forallb (fun t => negb (Nat.eqb t 0)) tl
+  end.
+
+(** one observed Load: tags, new specification state, new replay state *)
+Definition kstep_load (st : option cfg) (rep : option ceff) (arg : option cfg)
+    (err : bool) (cs : list ccall) (cur : option cfg) : list N * option cfg * option ceff :=
+  let adm := admissible st arg err in
+  let st' := if adm then arg else st in
+  let rep' := replay_step rep cs in
+  (tagif (Bool.eqb err (negb adm)) 2
+   ++ tagif (ocfg_eqb cur (shown st')) 3
+   ++ tagif (mset_eqb call_eqb cs (if adm then eff_diff (eff_of st) (eff_of arg) else [])) 4
+   ++ tagif (rep_ok rep' st') 5,
+   st', rep').
+
 (** tags of one step, new specification state, new replay state *)
 Definition kstep (st : option cfg) (rep : option ceff) (o : op) (r : obs)
   : list N * option cfg * option ceff :=
   match o, r with
-  | OLoad arg, RLoad err cs cur =>
-      let adm := admissible st arg err in
-      let st' := if adm then arg else st in
-      let rep' := replay_step rep cs in
-      (tagif (Bool.eqb err (negb adm)) 2
-       ++ tagif (ocfg_eqb cur (shown st')) 3
-       ++ tagif (mset_eqb call_eqb cs (if adm then eff_diff (eff_of st) (eff_of arg) else [])) 4
-       ++ tagif (rep_ok rep' st') 5,
-       st', rep')
+  | OLoad arg, RLoad err cs cur => kstep_load st rep arg err cs cur
   | OMutate _, RCur cur =>
       (tagif (ocfg_eqb cur (shown st)) 3, st, rep)
+  | OPar a b, RPar early tr ea eb cur =>
+      (* Load a took c.mu first and was parked inside a handler, or had already
+         returned, when Load b was issued: the loads must take effect in the
+         order a, b, b's calls after all of a's, and b may only have returned
+         meanwhile if it was refused before touching the mutex (nil / invalid) *)
+      let serial :=
+        contiguous (map fst tr)
+        && (negb early
+            || (eb && match b with None => true | Some c => negb (valid_b true c) end)) in
+      let sta := if admissible st a ea then a else st in
+      let '(ta, st1, rep1) := kstep_load st rep a ea (calls_of 0 tr) (shown sta) in
+      let '(tb, st2, rep2) := kstep_load st1 rep1 b eb (calls_of 1 tr) cur in
+      let repg := replay_step rep (map snd tr) in      (* the calls in the order they were made *)
+      (tagif serial 7 ++ ta ++ tb ++ tagif (rep_ok repg st2) 5, st2, repg)
   | _, RPanic => ([6%N], st, rep)
   | _, _ => ([6%N], st, rep)      (* malformed observation *)
   end.
